@@ -448,7 +448,40 @@ def concrete_compare(spec: Any, fkey: str, mode: str = "reference") -> Tuple[boo
     return bool(bad), f"simulate_format[{fkey}]({spec_name(spec)}): " + "; ".join(bad or ["bit-identical to the reference"])
 
 
+def concrete_compare_root_lossless(spec: Any) -> Tuple[bool, str]:
+    """simulate_format(lossless) of a module for which TorchDynamo captures nothing: real transformed module vs real original, bit for bit"""
+    from unit_scaling.formats import FPFormat
+    from unit_scaling.transforms import simulate_format
+    p = build(spec)
+    inputs = p.example_inputs()
+    fmt = FPFormat(8, 23, "nearest")
+    torch._dynamo.reset()
+    q = simulate_format(p, fmt, fmt)
+
+    def run(mod: Any) -> Tuple[Any, List[Any]]:
+        mod.zero_grad()
+        ins = [t.clone().requires_grad_(True) if t.is_floating_point() else t.clone() for t in inputs]
+        out = mod(*ins)
+        out = out[0] if isinstance(out, (tuple, list)) else out
+        out.sum().backward()
+        return out.detach().clone(), [t.grad for t in ins if t.is_floating_point()] + [v.grad for _, v in sorted(mod.named_parameters())]
+
+    try:
+        o1, g1 = run(p)
+        o2, g2 = run(q)
+    finally:
+        torch._dynamo.reset()
+    bad = []
+    if not torch.equal(o1, o2):
+        bad.append("outputs differ")
+    if len(g1) != len(g2) or any((a is None) != (b is None) or (a is not None and not torch.equal(a, b)) for a, b in zip(g1, g2)):
+        bad.append("gradients differ")
+    return bool(bad), f"simulate_format[lossless]({spec_name(spec)}) vs the original module, bit for bit: " + "; ".join(bad or ["identical outputs and gradients"])
+
+
 def replay_graph(obname: str, model: Dict[str, Any], info: Any) -> Tuple[bool, str]:
+    if obname == "lossless-bit-exact" and info.get("root"):
+        return concrete_compare_root_lossless(_unplain(info["spec"]))
     if obname == "no-exception":  # the symbolic run raised: confirmed only if the real pipeline raises too
         return concrete_compare(_unplain(info["spec"]), info["formats"], mode="raises")
     if obname == "lossless-bit-exact":
@@ -470,6 +503,15 @@ def task_program(spec: Any, fkey: str, timeout: float) -> List[Dict[str, Any]]:
         elif cap.graphs == 0 and FORMATS[fkey][0][:2] != (8, 23):
             from .c16 import _never_transformed
             recs += _never_transformed("C15", name, spec, _transform(fkey), {"spec": _plain(spec), "formats": fkey})
+        elif cap.graphs == 0:
+            # a root torch.nn layer (TorchDynamo traces no graph, see the open finding for the lossy formats): with the lossless format a transform
+            # that does nothing is not observable - the lossless clause itself is still decided on the real modules
+            b, desc = concrete_compare_root_lossless(spec)
+            if b:
+                recs.append({"type": "violation", "key": f"C15/{name}/lossless reproduces the original bit for bit", "what": desc,
+                             "replay": {"info": {"spec": _plain(spec), "formats": "lossless", "root": True}, "obligation": "lossless-bit-exact", "model": {}}})
+            else:
+                recs.append({"type": "obligation", "name": f"{name}/lossless reproduces the original bit for bit", "status": CONCRETE, "queries": 0, "kind": "concrete", "detail": desc})
         else:
             recs.append({"type": "obligation", "name": f"{name}/capture", "status": INCONCLUSIVE, "queries": 0, "detail": f"{cap.graphs} graphs"})
         return recs
